@@ -47,10 +47,22 @@ def hpsOut (qs : List Nat) (ys : List Nat) (v p : Nat) : Nat :=
 /-- `(x_i − e_i)·c mod q_i`, `c` the inverse of `P` modulo `q_i`, `e_i` the extension of `[x]_P` -/
 def modDownRes (qi c xi ei : Nat) : Nat := ((xi + qi - ei % qi) * c) % qi
 
-/-- `ExtendBasisSmallNormAndCenter` on one coefficient, as integers: the residue `c` modulo `q0`
-    is centred (`c > q0/2 ↦ c − q0`) and written modulo `p` as `c` resp. `p − (q0 − c)`.  The Go code
-    computes `p − (q0 − c)` on uint64: it wraps when `q0 − c > p`. -/
+/-- `ringqp.Ring.ExtendBasisSmallNormAndCenter` on one coefficient (code after repair C03-9 of /repo): the residue `c`
+    modulo `q0` is centred (`c > q0/2 ↦ −(q0 − c)`), its absolute value is REDUCED modulo `p`
+    (`cc := coeff % p`) and the limb is `cc` resp. `−cc mod p` with `−0 = 0`
+    (`neg := (p − cc)·((cc | −cc) >> 63)`).  Go's `%` panics for `p = 0`; Lean's gives `coeff`. -/
 def extendSmallLimb (q0 p c : Nat) : Nat :=
+  let qHalf := u64shr q0 1
+  let neg := decide (qHalf < c)
+  let coeff := if neg then u64sub q0 c else c
+  let sign := if neg then 0 else 1
+  let cc := coeff % p
+  let ng := u64mul (u64sub p cc) (u64shr (u64or cc (u64neg cc)) 63)
+  u64or (u64mul cc sign) (u64mul ng (u64xor sign 1))
+
+/-- `rlwe.ExtendBasisSmallNormAndCenterNTTMontgomery` on one coefficient (core/rlwe/utils.go, NOT changed by C03-9):
+    written modulo `p` as `c` resp. `p − (q0 − c)` on uint64 — it wraps when `q0 − c > p`. -/
+def extendSmallLimbWrap (q0 p c : Nat) : Nat :=
   let qHalf := u64shr q0 1
   let neg := decide (qHalf < c)
   let coeff := if neg then u64sub q0 c else c
@@ -255,7 +267,7 @@ def extendSmallNormNTTMont (T0 : NTT.Tables) (TP : Scaling.Tabs) (P : List Nat) 
   let b := (NTT.inttStd T0 row0).map fun x => IMForm x q0 T0.qinv
   (List.range (levelP + 1)).map fun i =>
     let T := Scaling.tab TP i
-    let r := b.map (extendSmallLimb q0 (P.getD i 0))
+    let r := b.map (extendSmallLimbWrap q0 (P.getD i 0))
     (NTT.nttStd T r).map fun x => MForm x T.q T.bred
 
 end Lattigo.BasisExt
